@@ -366,6 +366,23 @@ def run(ctx):
               'data through unchanged', ok, 'data supplied at the required '
               'frequencies are not passed through unchanged',
               ctx.where(mod, br[0]))
+    # the spline has its knots at the COMPUTED frequencies; it is evaluated at
+    # all required frequencies of the band.  With a coarse-frequency option
+    # the computed ones need not reach fmin / fmax, and required frequencies
+    # between fmin and the first (the last and fmax) computed one are then
+    # extrapolated by the cubic spline (default ext=0) instead of being
+    # "taken or interpolated from the computed ones"
+    spl = [c for c in au.calls(fn) if isinstance(c.func, ast.Name) and any(
+        isinstance(a, ast.Call) and 'freq_compute' in ast.unparse(a)
+        for a in c.args)]
+    guarded = any('ext' in {k.arg for k in c.keywords} for c in spl) or any(
+        'clip' in ast.unparse(n) or 'freq_compute[0]' in ast.unparse(n) or
+        'freq_compute.min()' in ast.unparse(n) for n in ast.walk(fn))
+    ctx.check('C20.F3.spline', 'interpolate: no extrapolation inside the band',
+              guarded, 'the in-band spline is evaluated at every required '
+              'frequency of [fmin, fmax] although its knots (freq_compute) '
+              'may not reach fmin / fmax with every_x_freq / input_freq: '
+              'values there are cubic extrapolations', ctx.where(mod, br[0]))
     parts = {}
     for part in ('real', 'imag'):
         f = find(f'_v_ = _S_(np.log(self.freq_compute), {ps[1]}.{part})'
